@@ -38,6 +38,9 @@ type Profile struct {
 	History     bool   `json:"history,omitempty"` // keep invoke/return history (C05)
 	ExtRead     bool   `json:"ext_read,omitempty"`
 	SmallIDs    bool   `json:"small_ids,omitempty"` // 3..6 shared ids so that batches conflict
+	Torn        bool   `json:"torn,omitempty"`      // torn variants of the in-flight persist (C03)
+	ForkDepth   int    `json:"fork_depth,omitempty"`
+	AckedOnly   bool   `json:"acked_only,omitempty"` // unsafe mode only with persisted callbacks
 
 	PostRun func(r *Run, res *Result) `json:"-"`
 }
@@ -84,6 +87,9 @@ func decodeKnobs(p *Profile, t *Tape) *Knobs {
 		k.Unsafe = t.Chance(1, 3, "k.unsafe")
 	}
 	k.PCB = k.Unsafe && t.Chance(2, 3, "k.pcb")
+	if p.AckedOnly && k.Unsafe {
+		k.PCB = true
+	}
 	k.KeepN = 1 + t.Draw(3, "k.keepn")
 	k.Workers = 1 + t.Draw(4, "k.workers")
 	k.MinMemMerge = pick(t, "k.minmem", 2, 2, 3, 4, 1000)
@@ -229,6 +235,15 @@ type Run struct {
 	callWin   map[int]int
 	prevMonKey string
 	snapReads []readData
+
+	depth      int
+	forkPath   []ForkStep
+	startImage map[string][]byte
+	startModel *Model
+	uidPrefix  string
+	inheritSegVer int
+	docs       map[string]*DocSpec
+	recovered  map[int]*Content // image index -> recovered content (crash oracle)
 }
 
 // HistOp is one completed client operation with event-sequence stamps.
@@ -539,8 +554,9 @@ func (r *Run) genBatch(c *client) *BatchSpec {
 			r.stats.Probes["delete-into-merge-window"]++
 		}
 		if kind != OpDelete {
-			op.Doc = genDoc(t, id, fmt.Sprintf("c%d.b%d.o%d", c.idx, b.N, opno), r.k.Geo)
+			op.Doc = genDoc(t, id, fmt.Sprintf("%sc%d.b%d.o%d", r.uidPrefix, c.idx, b.N, opno), r.k.Geo)
 			r.stored[op.Doc.UID] = op.Doc.Stored()
+			r.docs[op.Doc.UID] = op.Doc
 		}
 		return op
 	}
@@ -870,6 +886,12 @@ func (r *Run) afterWindow() {
 			}
 		case *DirOp:
 			r.stats.DirOps++
+			if d.Op == "persist" && d.Kind == ".snp" && d.PrevExisted && d.Err == "" {
+				r.stats.Probes["same-epoch-rewrite-after-recovery"]++
+				if len(d.Prev) > len(d.Data) {
+					r.stats.Probes["rewrite-over-longer-file"]++
+				}
+			}
 		}
 		if e.Kind == "probe" {
 			r.stats.Probes[e.Detail]++
@@ -999,7 +1021,7 @@ var runCounter int
 func newRun(p *Profile, t *Tape, scratch string) *Run {
 	runCounter++
 	r := &Run{p: p, t: t, stored: map[string]map[string]string{}, acks: map[int]int{}, ackErr: map[int]string{}, invokeSeq: map[int]int{},
-		merging: map[string][]string{}, callWin: map[int]int{}}
+		merging: map[string][]string{}, callWin: map[int]int{}, docs: map[string]*DocSpec{}, recovered: map[int]*Content{}}
 	r.stats.Probes = map[string]int{}
 	r.root = filepath.Join(scratch, fmt.Sprintf("run-%d", runCounter))
 	r.dir = filepath.Join(r.root, "d0")
@@ -1010,6 +1032,12 @@ func newRun(p *Profile, t *Tape, scratch string) *Run {
 func (r *Run) Execute() {
 	t := r.t
 	r.k = decodeKnobs(r.p, t)
+	if r.inheritSegVer != 0 {
+		// a recovered index is reopened with the segment format it was
+		// written with (a directory holding both formats is outside the
+		// properties: ice v2's merger panics on a v1 segment)
+		r.k.SegVer = r.inheritSegVer
+	}
 	runKey := uint64(t.Draw(1<<30, "run.selectkey")) + 1
 	r.s = NewSim(runKey)
 	r.s.keepLog = 400
@@ -1017,16 +1045,42 @@ func (r *Run) Execute() {
 	for i := 0; i < r.k.IDSpace; i++ {
 		r.idspace = append(r.idspace, fmt.Sprintf("d%02d", i))
 	}
+	if r.startModel != nil {
+		have := map[string]bool{}
+		for _, id := range r.idspace {
+			have[id] = true
+		}
+		for _, d := range r.startModel.Live {
+			if !have[d.ID] {
+				have[d.ID] = true
+				r.idspace = append(r.idspace, d.ID)
+			}
+		}
+		sort.Strings(r.idspace)
+	}
 	path := ""
 	if r.k.Dir == "fs" {
 		path = r.dir
 		_ = os.MkdirAll(r.root, 0700)
+		if r.startImage != nil {
+			if err := materialize(r.dir, &Image{Files: r.startImage}, true); err != nil {
+				r.s = NewSim(runKey)
+				r.chain = NewChain(&Model{})
+				r.fail("harness", "cannot materialise start image: "+err.Error())
+				return
+			}
+		}
 	}
 	r.trace = NewDirTrace(r.s, path)
 	r.trace.MidGateAfter = r.k.MidGate
 	r.trace.ReadBack = r.p.Images && path != ""
 	r.cfg = r.buildConfig()
-	r.chain = NewChain(&Model{})
+	if r.startModel != nil {
+		r.chain = NewChain(r.startModel)
+		r.lastMonKey = r.startModel.Key()
+	} else {
+		r.chain = NewChain(&Model{})
+	}
 	r.slots = make([]*heldReader, 3)
 
 	defer r.teardown()
